@@ -24,7 +24,7 @@ pub fn has_error_diag(d: &str) -> bool {
 pub fn has_warning_diag(d: &str) -> bool { d.lines().any(|l| l.starts_with("warning")) }
 
 #[derive(Debug, Clone, Copy, PartialEq, Eq)]
-pub enum Stage { Mapfile, Parse, Languages, Resolve, TypeCheck, ConstEval, ConstSimplify, Desugar, Lower, Finish }
+pub enum Stage { Mapfile, Parse, Languages, Resolve, TypeCheck, ConstEval, ConstSimplify, Difficulty, Desugar, Lower, Finish }
 
 pub struct Compiled {
     /// after resolution + type check (+ const simplify if requested), before desugaring
@@ -55,6 +55,8 @@ pub fn compile_body(truth: &mut Truth, spec: &LangSpec, hooks: &llir::TestLangua
     if opts.const_simplify {
         passes::const_simplify::run(&mut block, ctx).map_err(|e| { e.ignore(); Stage::ConstSimplify })?;
     }
+    // as in the ECL pipeline (formats/ecl/ecl_06.rs): difficulty-related validation (switch lengths, warnings)
+    passes::validate_difficulty::run(&block, ctx, hooks).map_err(|e| { e.ignore(); Stage::Difficulty })?;
     let structured = block.clone();
     passes::desugar_blocks::run(&mut block, ctx, truth::LanguageKey::Anm).map_err(|e| { e.ignore(); Stage::Desugar })?;
     let flat = block;
